@@ -47,6 +47,7 @@ func c13Case(c *lib.Ctx, idx uint64) {
 		MaxFields:      6,
 		UndefinedLocal: 15,
 		RepeatPrev:     8,
+		DevDescribe:    30,
 		NoTimeZero:     true,
 		ZeroFieldDefs:  3,
 		RedefSimilar:   30,
